@@ -60,7 +60,9 @@ def gen_quoted(rng):
     it is not a regular-expression template escape, not a group reference)"""
     kinds = {'quoted-replacement'}
     texts = ['"C:\\\\tmp"', '"a\\tb"', '"x\\\\y\\\\z"', "'\\\\'", '"\\x41\\x42"', '"q\\\\1"', '"tab\\there"', '"plain"', '"\\\\g<0>"',
-             '"nl\\n"']
+             '"nl\\n"',
+             # runs of blanks and a raw TAB inside the literal are characters of the text like any other
+             '"ID  NAME    QTY"', '"a   b"', '" lead"', '"two  sp"', '"t\tab  x"', "'  '"]
     names = rng.sample(['STR_A', 'STR_B', 'PATHX'], rng.randint(1, 2))
     body = []
     for n in names:
